@@ -50,40 +50,45 @@ type Field struct {
 	Width int    `json:"width"`
 	Count int    `json:"count"`
 	Pad   bool   `json:"pad"`
+	Elem  string `json:"elem,omitempty"` // element type as declared (Go basic type / C typedef or int name): side-car only
 }
 
 type Site struct {
-	File string `json:"file"`
-	Line int    `json:"line"`
-	Func string `json:"func"`
-	Op   string `json:"op"`
+	File  string `json:"file"`
+	Line  int    `json:"line"`
+	Func  string `json:"func"`
+	Op    string `json:"op"`
+	Slice bool   `json:"slice,omitempty"` // the value argument at this call site is a slice (one element per CPU)
 }
 
 type Pair struct {
-	ID       string  `json:"id"`     // Coq identifier suffix
-	Name     string  `json:"name"`   // object/map/role/GoType
-	Object   string  `json:"object"` // nat44, ...
-	Map      string  `json:"map"`    // C map name ("" for record pairs)
-	Role     string  `json:"role"`   // key | value | record
-	GoPkg    string  `json:"go_pkg"`
-	GoType   string  `json:"go_type"`
-	GoLocal  string  `json:"go_local,omitempty"` // function holding a local type
-	CType    string  `json:"c_type"`
-	Go       []Field `json:"go"`
-	C        []Field `json:"c"`
-	GoSize   int     `json:"go_size"`
-	CSize    int     `json:"c_size"`
-	Decl     int     `json:"decl"`
-	PerCPU   bool    `json:"percpu"`
-	Slice    bool    `json:"slice"`
-	GoOK     bool    `json:"go_supported"`
-	COK      bool    `json:"c_supported"`
-	Writes   bool    `json:"writes"`
-	Reads    bool    `json:"reads"`
-	Sites    []Site  `json:"sites"`
-	MapType  string  `json:"map_type,omitempty"`
-	CSource  string  `json:"c_source"` // btf | record-layout
-	problems []string
+	ID        string  `json:"id"`     // Coq identifier suffix
+	Name      string  `json:"name"`   // object/map/role/GoType
+	Object    string  `json:"object"` // nat44, ...
+	Map       string  `json:"map"`    // C map name ("" for record pairs)
+	Role      string  `json:"role"`   // key | value | record
+	GoPkg     string  `json:"go_pkg"`
+	GoType    string  `json:"go_type"`
+	GoLocal   string  `json:"go_local,omitempty"` // function holding a local type
+	CType     string  `json:"c_type"`
+	Go        []Field `json:"go"`
+	C         []Field `json:"c"`
+	GoSize    int     `json:"go_size"`
+	CSize     int     `json:"c_size"`
+	Decl      int     `json:"decl"`
+	PerCPU    bool    `json:"percpu"`
+	Slice     bool    `json:"slice"`     // per-CPU map: EVERY value call site passes a slice; otherwise: SOME call site does
+	SliceAny  bool    `json:"slice_any"` // some value call site passes a slice
+	SliceAll  bool    `json:"slice_all"` // every value call site passes a slice
+	nValSites int
+	GoOK      bool   `json:"go_supported"`
+	COK       bool   `json:"c_supported"`
+	Writes    bool   `json:"writes"`
+	Reads     bool   `json:"reads"`
+	Sites     []Site `json:"sites"`
+	MapType   string `json:"map_type,omitempty"`
+	CSource   string `json:"c_source"` // btf | record-layout
+	problems  []string
 }
 
 type Out struct {
@@ -104,7 +109,10 @@ var recordPairs = []struct{ pkg, goType, object, cType string }{
 	{"antispoof", "SpoofEvent", "antispoof", "spoof_event"},
 }
 
-func die(f string, a ...interface{}) { fmt.Fprintf(os.Stderr, "gen_layouts: "+f+"\n", a...); os.Exit(1) }
+func die(f string, a ...interface{}) {
+	fmt.Fprintf(os.Stderr, "gen_layouts: "+f+"\n", a...)
+	os.Exit(1)
+}
 
 // ------------------------------------------------------------------------------ C side (BTF)
 
@@ -133,20 +141,42 @@ func isPadName(n string) bool {
 }
 
 // flattenC returns leaf members with absolute byte offsets; ok=false on an unsupported construct.
+// cElemName: the element type as the source spells it (outermost typedef, e.g. __u32 / __be32), else the BTF name
+func cElemName(t btf.Type) string {
+	for {
+		switch v := t.(type) {
+		case *btf.Typedef:
+			return v.Name
+		case *btf.Const:
+			t = v.Type
+		case *btf.Volatile:
+			t = v.Type
+		case *btf.Restrict:
+			t = v.Type
+		case *btf.Enum:
+			return "enum " + v.Name
+		case *btf.Pointer:
+			return "pointer"
+		default:
+			return t.TypeName()
+		}
+	}
+}
+
 func flattenC(t btf.Type, prefix string, base int, out *[]Field) bool {
 	switch v := under(t).(type) {
 	case *btf.Int:
-		*out = append(*out, Field{prefix, base, int(v.Size), 1, isPadName(prefix)})
+		*out = append(*out, Field{prefix, base, int(v.Size), 1, isPadName(prefix), cElemName(t)})
 	case *btf.Enum:
-		*out = append(*out, Field{prefix, base, int(v.Size), 1, isPadName(prefix)})
+		*out = append(*out, Field{prefix, base, int(v.Size), 1, isPadName(prefix), cElemName(t)})
 	case *btf.Pointer:
-		*out = append(*out, Field{prefix, base, 8, 1, isPadName(prefix)})
+		*out = append(*out, Field{prefix, base, 8, 1, isPadName(prefix), "pointer"})
 	case *btf.Array:
 		switch e := under(v.Type).(type) {
 		case *btf.Int:
-			*out = append(*out, Field{prefix, base, int(e.Size), int(v.Nelems), isPadName(prefix)})
+			*out = append(*out, Field{prefix, base, int(e.Size), int(v.Nelems), isPadName(prefix), cElemName(v.Type)})
 		case *btf.Enum:
-			*out = append(*out, Field{prefix, base, int(e.Size), int(v.Nelems), isPadName(prefix)})
+			*out = append(*out, Field{prefix, base, int(e.Size), int(v.Nelems), isPadName(prefix), cElemName(v.Type)})
 		default:
 			sz, err := btf.Sizeof(v.Type)
 			if err != nil {
@@ -255,7 +285,7 @@ func recordLayout(repo, verif, object, cType string) (fields []Field, size int, 
 				ok = false
 				continue
 			}
-			fields = append(fields, Field{name, off, w, count, isPadName(name)})
+			fields = append(fields, Field{name, off, w, count, isPadName(name), strings.TrimSpace(ty)})
 		}
 		return fields, size, ok && size > 0
 	}
@@ -324,7 +354,7 @@ func flattenGo(t types.Type, prefix string, off *int, out *[]Field) bool {
 		default: // int, uint, uintptr, string, invalid: encoding/binary refuses them
 			return false
 		}
-		*out = append(*out, Field{prefix, *off, w, 1, false})
+		*out = append(*out, Field{prefix, *off, w, 1, false, u.Name()})
 		*off += w
 	case *types.Array:
 		switch e := u.Elem().Underlying().(type) {
@@ -334,7 +364,7 @@ func flattenGo(t types.Type, prefix string, off *int, out *[]Field) bool {
 			if !flattenGo(e, "", &o, &tmp) {
 				return false
 			}
-			*out = append(*out, Field{prefix, *off, tmp[0].Width, int(u.Len()), false})
+			*out = append(*out, Field{prefix, *off, tmp[0].Width, int(u.Len()), false, tmp[0].Elem})
 			*off += tmp[0].Width * int(u.Len())
 		default:
 			for i := 0; i < int(u.Len()); i++ {
@@ -356,7 +386,7 @@ func flattenGo(t types.Type, prefix string, off *int, out *[]Field) bool {
 				if !flattenGo(f.Type(), "", &o, &tmp) {
 					return false
 				}
-				*out = append(*out, Field{n, *off, 1, o, true})
+				*out = append(*out, Field{n, *off, 1, o, true, ""})
 				*off += o
 				continue
 			}
@@ -389,9 +419,9 @@ func enclosingFunc(f *ast.File, pos token.Pos) string {
 
 type access struct {
 	mapName, field, op string
-	key, val          types.Type
-	valSlice          bool
-	site              Site
+	key, val           types.Type
+	valSlice           bool
+	site               Site
 }
 
 func scanGo(g *goPkg, repo string) (acc []access, bound map[string]string, unbound []string, objectHint string) {
@@ -482,7 +512,7 @@ func scanGo(g *goPkg, repo string) (acc []access, bound map[string]string, unbou
 			}
 			p := g.fset.Position(ce.Pos())
 			rel, _ := filepath.Rel(repo, p.Filename)
-			a := access{mapName: mn, field: fe.Sel.Name, op: op, site: Site{rel, p.Line, enclosingFunc(f, ce.Pos()), op}}
+			a := access{mapName: mn, field: fe.Sel.Name, op: op, site: Site{File: rel, Line: p.Line, Func: enclosingFunc(f, ce.Pos()), Op: op}}
 			if len(ce.Args) >= 1 {
 				a.key, _ = deref(ce.Args[0])
 			}
@@ -598,7 +628,21 @@ func main() {
 			order = append(order, name)
 		}
 		if role == "value" {
-			p.Slice = p.Slice || slice
+			// shape of the value argument per call site against the map type: a per-CPU map wants a slice at every site,
+			// any other map a single value at every site
+			if p.nValSites == 0 {
+				p.SliceAll = slice
+			} else {
+				p.SliceAll = p.SliceAll && slice
+			}
+			p.nValSites++
+			p.SliceAny = p.SliceAny || slice
+			if p.PerCPU {
+				p.Slice = p.SliceAll
+			} else {
+				p.Slice = p.SliceAny
+			}
+			a.site.Slice = slice
 		}
 		switch a.op {
 		case "Put", "Update":
